@@ -230,7 +230,9 @@ def analyse(prog, R, b, refills):
         cons = [(x, t, a) for (x, t, a) in p.effects if t.callee and t.callee.is_('std::io::BufRead::consume')]
         room = [(x, t, a) for (x, t, a) in p.effects if t.callee and t.callee.is_('buffer_redux::BufReader::make_room')]
         amt = close(cons[0][2][1]) if len(cons) == 1 and len(cons[0][2]) == 2 else None
-        R.add('SCAN-3', b, 'consumed=buffer-minus-unterminated-tail#%d' % n, amt is not None and amt == expected, where,
+        def unresolved(a):
+            return a is None or (isinstance(a, Aff) and any(isinstance(sy, tuple) and sy[0] == 'H' and sy[1] != v_line for sy in a.syms()))
+        R.add('SCAN-3', b, 'consumed=buffer-minus-unterminated-tail#%d' % n, amt is not None and amt == expected, where, undecided=unresolved(amt), detail=
               'amount consumed when all K pieces are blank = %r (required: %r, i.e. the buffer length SUMLEN+K-1 minus the last piece)' % (amt, expected))
         # compaction after the consume, before the refill
         order_ok = bool(cons) and bool(room) and p.effects.index(room[0]) > p.effects.index(cons[0])
